@@ -238,6 +238,31 @@ theorem merge_get_eq_union_lookup_partial (eon step : Bool) {bs : Nat} (hbs : 1 
     ((sortKVs_perm _).trans hr3).trans (sortKVs_perm _).symm
   exact lookup_perm (hdr.perm (sortKVs_perm _).symm) h1 key
 
+theorem mergerRun_eq_map (step : Bool) (bs : Nat) (calls : List MergeCall) (acc : List (Nat × Option (List Node))) :
+    calls.foldl (mergerStep step bs) acc = acc ++ calls.map (fun c => (c.bucketID, mergeTries step bs c.tries)) := by
+  induction calls generalizing acc with
+  | nil => simp
+  | cons c r ih => simp [List.foldl_cons, ih, mergerStep]
+
+/-- **the merger's output is a function of the current call's inputs**: whatever calls one merger
+instance served before, what it writes for a call is `mergeTries` of that call's tries (the fact the
+harness' merger-session cases test on the real `indexKVMerger`; tie `gen_merger_fresh_bucket`) -/
+theorem merge_independent_of_previous_merges (step : Bool) (bs : Nat) (previous : List MergeCall) (c : MergeCall) :
+    mergerRun step bs (previous ++ [c]) = mergerRun step bs previous ++ [(c.bucketID, mergeTries step bs c.tries)] ∧
+    (mergerRun step bs (previous ++ [c])).getLast? = some (c.bucketID, mergeTries step bs c.tries) := by
+  unfold mergerRun
+  rw [mergerRun_eq_map, mergerRun_eq_map]
+  simp
+
+/-- … so every call of a session yields the union of ITS inputs (with `merge_eq_union`) -/
+theorem merger_session_eq_union (step : Bool) {bs : Nat} (hbs : 1 ≤ bs) (previous : List MergeCall) (c : MergeCall)
+    (hts : ∀ t ∈ c.tries, Built t) (hd : DistinctKeys (c.tries.flatMap iter))
+    (hE : (∀ v, ([], v) ∉ c.tries.flatMap iter) ∨ 2 ≤ bs) :
+    ∃ r, (mergerRun step bs (previous ++ [c])).getLast? = some (c.bucketID, some r) ∧ (∀ t ∈ r, Built t) ∧
+      (r.flatMap iter).Perm (c.tries.flatMap iter) := by
+  obtain ⟨r, h1, h2, h3⟩ := merge_spec (step := step) hbs hts hd hE
+  exact ⟨r, by rw [(merge_independent_of_previous_merges step bs previous c).2, h1], h2, h3⟩
+
 theorem filter_key_eq_lookup {l : List KV} (hd : DistinctKeys l) (k : Key) :
     (l.filter (fun kv => k == kv.1)).map (·.2) =
       (match lookup k l with
@@ -607,6 +632,10 @@ theorem gen_vector_layout :
       "endian.PutUint32", "w.Write", "encoding.U32SliceToBytes", "w.Write", "w.Write"] ∧
     Generated.C20.pathUnmarshalCalls = ["hasPathVector.Unmarshal", "len", "fmt.Errorf", "endian.Uint32",
       "endian.Uint32", "len", "uint32", "len", "fmt.Errorf", "encoding.BytesToU32Slice"] := ⟨rfl, rfl, rfl, rfl⟩
+
+/-- `indexKVMerger.Merge` starts from a fresh `model.NewTrieBucket()` on every call (what
+`mergerStep` / `merge_independent_of_previous_merges` rest on) -/
+theorem gen_merger_fresh_bucket : Generated.C20.mergerCalls.head? = some "model.NewTrieBucket" := rfl
 
 /-- the like dispatch of `indexKVStore.FindValuesByLike` (= `TrieBucket.likePlan`): four bucket
 scans and the exact lookup -/
